@@ -731,7 +731,7 @@ func init() {
 			v.Nontrivial = true
 			return v
 		},
-		Rule:        "corpus of programs covering every node kind (pending task, half-full parallel / inclusive join, exclusive gateway in a loop, listening and fired catch event, armed event-based gateway, armed mock-clock timer, running / completed / nested sub-process, armed boundary listener, two start events, error answers whose handler decision is pending / retries / plain) x cancellation point k = number of traces received before cancel() (0..70 strided in quick, all in thorough; beyond the run's length = at the resting state) x hooks off / 0.5; the same cancellation points indexed by code position (the goroutine making the n-th hit of each of the instrumentation sites cancels, then pauses 0 / 300 us); process sets (1..3 processes x message-flow links none / start+catch / two starts / two catches / uninstantiated catch x all answered or last tasks held) cancelled by trace count and at code points; one process per case; after cancel: goroutine census by label at the quiescent point (leaks, blocked waiters), spin detection, tracer/subscriber closure, context of late task requests; distinct = descriptor hash, all non-trivial (an instance is cancelled in every case)",
+		Rule:        "corpus of programs covering every node kind (pending task, half-full parallel / inclusive join, exclusive gateway in a loop, listening and fired catch event, armed event-based gateway, armed mock-clock timer, running / completed / nested sub-process, armed boundary listener, two start events, error answers whose handler decision is pending / retries / plain) x cancellation point k = number of traces received before cancel() (0..70 strided in quick, all in thorough; beyond the run's length = at the resting state) x hooks off / 0.5; the same cancellation points indexed by code position (the goroutine making the n-th hit of each of the instrumentation sites cancels, then pauses 0 / 300 us); process sets (1..3 processes x message-flow links none / start+catch / two starts / two catches / uninstantiated catch x all answered or last tasks held) cancelled by trace count and at code points; one process per case; after cancel: goroutine census by label at the quiescent point (leaks, blocked waiters), spin detection, tracer/subscriber closure, context of late task requests; distinct = descriptor hash, all non-trivial (an instance is cancelled in every case); programs xor-cond-fails / or-cond-fails (conditions that cannot be evaluated)",
 		WatchdogSec: 60,
 		Assumptions: []string{"'promptly' is restated as 'by the quiescent point after cancel() returned'", "the context given to WithContext and StartAll is the same one"},
 	})
